@@ -613,6 +613,90 @@ def _history_job(job):
     return dict(bad=bad, n=n)
 
 
+_VFILTERS = []
+
+
+def _session_job(hists):
+    """histories of a process that parses several files (ViewSession.tla): parse / create view / read / release, replayed on
+    ConfigParser and FilteredConfigParser; every read is compared with the hand-deleted lists of the view's own file"""
+    import gc
+    want_of = {(c["doc"], c["view"]["mode"], tuple(sorted(c["view"]["S"]))): c["filtered"] for c in _VCASES}
+    texts = [v_render(d, "setfl_fs" if d["fs"] else "setfl") for d in _VDOCS]
+    bad, n = [], 0
+    for h in hists:
+        parsers, pdoc, views, vinfo = {}, {}, {}, {}
+        try:
+            for ev in h["hist"]:
+                if ev["e"] == "parse":
+                    parsers[ev["p"]] = ConfigParser(io.StringIO(texts[ev["d"] - 1]))
+                    pdoc[ev["p"]] = ev["d"]
+                elif ev["e"] == "release":
+                    for v in [v for v in views if vinfo[v][0] == ev["p"]]:
+                        del views[v]
+                        del vinfo[v]
+                    del parsers[ev["p"]]
+                    gc.collect()
+                elif ev["e"] == "create":
+                    f = _VFILTERS[ev["f"] - 1]
+                    labels = [SPL[x] for x in f["S"]]
+                    views[ev["v"]] = FilteredConfigParser(parsers[ev["p"]], include=labels) if f["mode"] == "include" else FilteredConfigParser(parsers[ev["p"]], exclude=labels)
+                    vinfo[ev["v"]] = (ev["p"], ev["f"])
+                else:
+                    pp, fi = vinfo[ev["v"]]
+                    f = _VFILTERS[fi - 1]
+                    d = pdoc[pp]
+                    doc = _VDOCS[d - 1]
+                    want_doc = want_of[(d, f["mode"], tuple(sorted(f["S"])))]
+                    for lst in ("pair", "embed", "dens"):
+                        attr = {"pair": "pair", "embed": "eam_embed", "dens": "eam_density_fs" if doc["fs"] else "eam_density"}[lst]
+                        got = [_sp_tuple(q, doc["fs"], lst) for q in getattr(views[ev["v"]], attr)]
+                        want = [[SPL[x] for x in e["sp"]] for e in want_doc[lst]]
+                        n += 1
+                        if got != want and len(bad) < 3:
+                            bad.append(("view-of-another-file", "history %s: reading %s of view %d (%s %s of file %d) gives %s, the hand-deleted file has %s" % (
+                                [(e["e"], e["p"], e["d"] or e["f"]) for e in h["hist"]], lst, ev["v"], f["mode"], labels if False else [SPL[x] for x in f["S"]], d, got, want), h))
+        except Exception:
+            import traceback
+            return dict(bad=bad, n=n, machinery=traceback.format_exc()[-1500:])
+        finally:
+            parsers.clear()
+            views.clear()
+            gc.collect()
+    return dict(bad=bad, n=n)
+
+
+def load_session_histories(run, tier, seed):
+    """ViewSession.tla: model-check the life cycle of several parsed files; TLC prints the witness history of every distinct
+    state that ends in a read"""
+    from engines.algebra import parse_printed
+    cfg = "ViewSession_fixed.cfg" if tier == "quick" else "ViewSession_thorough.cfg"
+    res = tlc.run("ViewSession", cfg, env={"EMIT": "1"}, workers=1, keep=True, timeout=1800)
+    try:
+        if res.violated:
+            run.machinery("TLC: %s violated\n%s" % (res.violated, res.stdout[-1500:]))
+            return []
+        run.add_tlc(cfg[:-4], res)
+        _VFILTERS[:] = tlc.read_ndjson(os.path.join(res.outdir, "filters.ndjson"))
+        hists, seen = [], set()
+        for h in parse_printed(res.stdout):
+            k = json.dumps(h["hist"], sort_keys=True)
+            if k not in seen:
+                seen.add(k)
+                hists.append(h)
+    finally:
+        tlc.cleanup(res)
+    r2 = tlc.run("ViewSession", "ViewSession_memo.cfg", timeout=600)
+    run.notes["identity_memo_model_violates"] = r2.violated
+    if r2.violated != "ReadIsFilterOfOwnFile":
+        run.machinery("anti-vacuity: the model with a memo keyed on the parser's identity should violate ReadIsFilterOfOwnFile, TLC says %r" % r2.violated)
+    if tier == "quick":
+        rnd = random.Random(seed + 5)
+        rest = [h for h in hists if not h["stale"]]
+        hists = [h for h in hists if h["stale"]] + rnd.sample(rest, min(len(rest), 1500))
+    run.notes["session_histories"] = len(hists)
+    return hists
+
+
 def main_c13(tier, seed):
     global _VDOCS, _VCASES
     import multiprocessing as mp
@@ -634,6 +718,7 @@ def main_c13(tier, seed):
         run.notes["unrepaired_model_violates"] = r2.violated
         if r2.violated != "ReadIsFilter":
             run.machinery("anti-vacuity: the shared-slot model should violate ReadIsFilter, TLC says %r" % r2.violated)
+        shists = load_session_histories(run, tier, seed) if not run.machinery_errors else []
         if not run.machinery_errors:
             rnd = random.Random(seed)
             pools = []
@@ -644,6 +729,8 @@ def main_c13(tier, seed):
             with mp.Pool(min(16, os.cpu_count() or 1)) as pool:
                 results = pool.map(_view_one, range(len(_VCASES)), chunksize=1)
                 hres = pool.map(_history_job, pools, chunksize=1)
+                rnd.shuffle(shists)
+                sres = pool.map(_session_job, [shists[k:k + 40] for k in range(0, len(shists), 40)], chunksize=1)
             for r in results:
                 case = _VCASES[r["idx"]]
                 if r.get("machinery"):
@@ -669,7 +756,14 @@ def main_c13(tier, seed):
                 run.replayed += r["n"]
                 for clause, msg in r["bad"][:1]:
                     run.violation(dict(engine="inidoc", clause=clause, route="api"), "[%s] %s" % (clause, msg), dict(msg=msg))
-            run.rule = "cases = 2 files (EAM, Finnis-Sinclair) x 32 views (include/exclude x subsets of 3 species + an unknown label) x 7 / 3 targets x {CLI, API}; histories = all sequences of <= 3 create/read events over 2 views from seeded pools of 4 filters; non-trivial = proper non-empty species set"
+            for r in sres:
+                if r.get("machinery"):
+                    run.machinery("session history: %s" % r["machinery"])
+                run.evaluations += r["n"]
+                for clause, msg, h in r["bad"][:1]:
+                    run.violation(dict(engine="inidoc", clause=clause, route="api"), "[%s] %s" % (clause, msg), dict(history=h))
+            run.replayed += len(shists)
+            run.rule = "cases = 3 files (EAM, Finnis-Sinclair, a second EAM) x 32 views (include/exclude x subsets of 3 species + an unknown label) x 7 / 3 targets x {CLI, API}; histories = all sequences of <= 3 create/read events over 2 views from seeded pools of 4 filters; session histories = the witness history of every distinct state of ViewSession.tla (parse / create / read / release over 2 parser handles, 3 files, 2 views, 2 filters) that ends in a read; non-trivial = proper non-empty species set"
     except tlc.TLCError as e:
         run.machinery(str(e))
     return run.finish()
